@@ -77,9 +77,9 @@ func (h *recHandler) rec(kind string, old, new model.Model) {
 	}
 }
 
-func (h *recHandler) OnAdd(table string, m model.Model)         { h.rec("add", nil, m) }
+func (h *recHandler) OnAdd(table string, m model.Model)           { h.rec("add", nil, m) }
 func (h *recHandler) OnUpdate(table string, old, new model.Model) { h.rec("update", old, new) }
-func (h *recHandler) OnDelete(table string, m model.Model)      { h.rec("delete", m, nil) }
+func (h *recHandler) OnDelete(table string, m model.Model)        { h.rec("delete", m, nil) }
 
 func (h *recHandler) snapshot() []evRec {
 	h.mu.Lock()
